@@ -534,7 +534,9 @@ fn judge_video(st: &ModelState, cfg: &CCfg, pts: f64, dts: Option<f64>, frame: &
         }
         if dts.is_some() {
             let pt = ticks_exact(pts).tick;
-            if (pt as i128 - te.tick as i128).unsigned_abs() > i32::MAX as u128 {
+            // a timestamp on a half-tick tie is known only to within one tick: the 32-bit offset rule is judged with that slack
+            let slack = ticks_exact(pts).tie as u128 + te.tie as u128;
+            if (pt as i128 - te.tick as i128).unsigned_abs() + slack > i32::MAX as u128 {
                 // not among the documented preconditions; a 32-bit composition offset cannot hold it (C16)
                 either.get_or_insert("composition_offset_beyond_i32(C16)".into());
                 contested.insert(DurationOverflow);
